@@ -222,6 +222,7 @@ struct Ctx {
       if ((k == 1 || k == 100 || k == 10000) && samples.size() < max_samples) samples.push_back(describe(c));
     }
     if (!r.ok) {
+      if (failures.size() >= max_failures) { counters["failures_beyond_the_first_three_of_a_shard"]++; return false; }   // a loop that polls stop() rarely
       char name[64]; snprintf(name, sizeof name, "%016llx", (unsigned long long)case_hash(c));
       std::string path = faildir + "/" + prop + "-" + name + ".case";
       write_case_file(path, prop, driver, c, r.msg);
